@@ -345,6 +345,13 @@ Theorem c20_parsed_values_validated : forall spec group argv out, parse spec gro
 Proof. exact parse_valid. Qed.
 Print Assumptions c20_parsed_values_validated.
 
+(* a flag or a single-valued option given twice (in any spelling, anywhere on the command line) never reaches main():
+   in the record of an accepted command line each of them occurs at most once *)
+Theorem c20_single_options_at_most_once : forall argv out, parse CLI GROUP argv = PParsed out ->
+  forall a, In a CLI -> single (a_kind a) = true -> (length (values_of out (a_field a)) <= 1)%nat.
+Proof. exact cli_single_once. Qed.
+Print Assumptions c20_single_options_at_most_once.
+
 (* every argument vector, every environment: the process ends through clap (usage error: status 2, one message on
    standard error, NOTHING else happens - no sink is opened, no report byte; help / version: status 0, text on standard
    output, no sink opened - not even the --log-file) or reaches main()'s logic with a flag record *)
